@@ -555,6 +555,14 @@ type scope struct {
 	Bound   int
 	Slow    bool
 	Strict  bool // every non-default alternative is a deviation (not only preemptions / map orders)
+	IDs     []int // tile matrix ids of the targets (ascending); default tmIDsFor(Targets)
+}
+
+func (sc scope) ids() []int {
+	if len(sc.IDs) > 0 {
+		return sc.IDs
+	}
+	return tmIDsFor(sc.Targets)
 }
 
 func tmIDsFor(n int) []int {
@@ -592,6 +600,9 @@ func scopesC10(thorough bool) []scope {
 		{Name: "N=2 len<=2 full alphabet, <=1 deviation", Targets: 2, Streams: streams(alphabet(2, true), 2), Bound: 1, Strict: true},
 		{Name: "N=3 len<=2 reduced alphabet, <=1 deviation", Targets: 3, Streams: streams(alphabet(3, false), 2), Bound: 1, Strict: true},
 		{Name: "N=2 len<=1 full alphabet, <=1 preemption", Targets: 2, Streams: streams(alphabet(2, true), 1), Bound: 1},
+		// other id sets: id 0 (the zero value of an id) and a negative id (CDB1GlobalGrid has them) among the targets
+		{Name: "ids {0,7}: N=2 len<=2 full alphabet, <=1 deviation", Targets: 2, IDs: []int{0, 7}, Streams: streams(alphabet(2, true), 2), Bound: 1, Strict: true},
+		{Name: "ids {-3,0,4}: N=3 len<=2 reduced alphabet, default schedule", Targets: 3, IDs: []int{-3, 0, 4}, Streams: streams(alphabet(3, false), 2), Bound: 0, Strict: true},
 	}
 }
 
@@ -701,6 +712,7 @@ type replayCase struct {
 	Scope   string     `json:"scope"`
 	Stream  []featSpec `json:"stream"`
 	Targets int        `json:"targets"`
+	IDs     []int      `json:"tile_matrix_ids,omitempty"`
 	Slow    bool       `json:"slow_snapping"`
 	Choices []int      `json:"choices"`
 	Trace   []string   `json:"trace"`
@@ -760,7 +772,7 @@ func main() {
 					rep.Exhaustive = false
 					break
 				}
-				scn := &scenario{Stream: stream, Targets: sc.Targets, tmIDs: tmIDsFor(sc.Targets)}
+				scn := &scenario{Stream: stream, Targets: sc.Targets, tmIDs: sc.ids()}
 				rep.Scenarios++
 				perScenario := map[string]bool{}
 				reported := map[string]bool{}
@@ -789,7 +801,7 @@ func main() {
 						reported[p.Sig] = true
 						confirmReplay(scn, choices, sc.Slow, id, p.Sig)
 						r.Violation(p.Sig, fmt.Sprintf("stream %v, %d targets: %s", stream, sc.Targets, p.What),
-							replayCase{Scope: sc.Name, Stream: stream, Targets: sc.Targets, Slow: sc.Slow, Choices: choices, Trace: o.x.Trace, Problem: p.What})
+							replayCase{Scope: sc.Name, Stream: stream, Targets: sc.Targets, IDs: sc.ids(), Slow: sc.Slow, Choices: choices, Trace: o.x.Trace, Problem: p.What})
 					}
 					return true
 				}
@@ -943,6 +955,9 @@ func replay(r *ev.Run, id, path string) {
 	sched.Install()
 	c := f.Case
 	scn := &scenario{Stream: c.Stream, Targets: c.Targets, tmIDs: tmIDsFor(c.Targets)}
+	if len(c.IDs) > 0 {
+		scn.tmIDs = c.IDs
+	}
 	o := execute(scn, c.Choices, c.Slow)
 	if o.x.Harness != "" {
 		ev.HarnessError("%s", o.x.Harness)
